@@ -112,6 +112,11 @@ Lemma pres_iter {A} (f : A -> M unit) l : (forall x, pres R (f x)) -> pres R (m_
 Proof.
   intros Hf. induction l as [|x l IH]; simpl; [apply pres_ret|]. apply pres_bind; auto.
 Qed.
+Lemma pres_iter_in {A} (f : A -> M unit) l : (forall x, In x l -> pres R (f x)) -> pres R (m_iter f l).
+Proof.
+  induction l as [|x l IH]; intros Hf; simpl; [apply pres_ret|].
+  apply pres_bind; [apply Hf; left; auto|intros _; apply IH; intros y Hy; apply Hf; right; auto].
+Qed.
 Lemma pres_putdoc d x : pres R (m_putdoc d x).
 Proof. intros s s' r H. inversion H; subst. apply (st_doc R HR). Qed.
 Lemma pres_modify_norefs h (f : elem -> elem) :
